@@ -1,7 +1,7 @@
 (* C14 - scaling, negation, addition, subtraction and translation of every function form act
    number by number, each number being ONE correctly rounded binary64 operation. *)
 From Coq Require Import List ZArith Reals.
-Require Import PP.FloatModel PP.Expr PP.FloatOps PP.FloatFacts PP.Shapes PP.PolyFacts PP.Model.PwModel PP.Gen.Kernels.
+Require Import PP.FloatModel PP.Expr PP.FloatOps PP.FloatFacts PP.Shapes PP.PolyFacts PP.ExpTail PP.Proofs.ValueForms PP.Model.PwModel PP.Gen.Kernels.
 Import ListNotations.
 
 (* Every operator implementation that exists, with the lanes it must compute.  A value of a form with
@@ -194,6 +194,42 @@ Theorem C14_value_sub : forall a b x, length a = length b -> polyval (zip_with R
 Proof. exact polyval_sub. Qed.
 Theorem C14_value_translate : forall c r v x, polyval ((c + v)%R :: r) x = (polyval (c :: r) x + v)%R.
 Proof. exact polyval_translate. Qed.
+
+(* ... and for the log forms.  log_val cs v = polyval cs (ln v) is the value of Log<P>; intoflog_val k cs v = k + v * polyval cs (ln v)
+   is the real value of the regenerated IntOfLog<P> evaluator (C09_IntOfLogK_evaluate); quartic_closed is the real value of
+   IntOfLogPoly4::evaluate (C09_Log4_evaluate_closed / _series).  Together with C14_shapes (each number of the result is the one
+   rounded operation on the corresponding numbers) these give (f*s)(v) = s f(v), (-f)(v) = -f(v), (f+g)(v) = f(v)+g(v),
+   (f-g)(v) = f(v)-g(v) and translate(c) raising the value by c at every v, with translate touching the additive constant only. *)
+Theorem C14_value_log_scale : forall cs s v, log_val (map (fun c => (c * s)%R) cs) v = (s * log_val cs v)%R.
+Proof. exact log_scale. Qed.
+Theorem C14_value_log_neg : forall cs v, log_val (map Ropp cs) v = (- log_val cs v)%R.
+Proof. exact log_neg. Qed.
+Theorem C14_value_log_add : forall a b v, length a = length b -> log_val (zip_with Rplus a b) v = (log_val a v + log_val b v)%R.
+Proof. exact log_add. Qed.
+Theorem C14_value_log_translate : forall c r x v, log_val ((c + x)%R :: r) v = (log_val (c :: r) v + x)%R.
+Proof. exact log_translate. Qed.
+Theorem C14_value_intoflog_scale : forall k cs s v, intoflog_val (k * s) (map (fun c => (c * s)%R) cs) v = (s * intoflog_val k cs v)%R.
+Proof. exact intoflog_scale. Qed.
+Theorem C14_value_intoflog_neg : forall k cs v, intoflog_val (- k) (map Ropp cs) v = (- intoflog_val k cs v)%R.
+Proof. exact intoflog_neg. Qed.
+Theorem C14_value_intoflog_add : forall k1 k2 a b v, length a = length b ->
+  intoflog_val (k1 + k2) (zip_with Rplus a b) v = (intoflog_val k1 a v + intoflog_val k2 b v)%R.
+Proof. exact intoflog_add. Qed.
+Theorem C14_value_intoflog_translate : forall k cs c v, intoflog_val (k + c) cs v = (intoflog_val k cs v + c)%R.
+Proof. exact intoflog_translate. Qed.
+Theorem C14_value_quartic_scale : forall k a b c d u s v,
+  quartic_closed (k * s) (a * s) (b * s) (c * s) (d * s) (u * s) v = (s * quartic_closed k a b c d u v)%R.
+Proof. exact quartic_scale. Qed.
+Theorem C14_value_quartic_neg : forall k a b c d u v, quartic_closed (- k) (- a) (- b) (- c) (- d) (- u) v = (- quartic_closed k a b c d u v)%R.
+Proof. exact quartic_neg. Qed.
+Theorem C14_value_quartic_add : forall k a b c d u k' a' b' c' d' u' v,
+  quartic_closed (k + k') (a + a') (b + b') (c + c') (d + d') (u + u') v = (quartic_closed k a b c d u v + quartic_closed k' a' b' c' d' u' v)%R.
+Proof. exact quartic_add. Qed.
+Theorem C14_value_quartic_sub : forall k a b c d u k' a' b' c' d' u' v,
+  quartic_closed (k - k') (a - a') (b - b') (c - c') (d - d') (u - u') v = (quartic_closed k a b c d u v - quartic_closed k' a' b' c' d' u' v)%R.
+Proof. exact quartic_sub. Qed.
+Theorem C14_value_quartic_translate : forall k a b c d u x v, quartic_closed (k + x) a b c d u v = (quartic_closed k a b c d u v + x)%R.
+Proof. exact quartic_translate. Qed.
 
 (* non-vacuity: Poly3 * 3.0 on [1,2,3,4] run inside Coq *)
 Example C14_example :
